@@ -869,12 +869,38 @@ fn gen_c04(ctx: &mut Ctx) {
                 let tails: Vec<Vec<u8>> = vec![
                     vec![0x00], vec![0xFF], vec![b0], vec![0xFF, 0xFF], vec![0x00, 0x00, 0x00], vec![b0, b0, b0],
                     vec![1, 2, 3], vec![(a >> 8) as u8], vec![(a & 0xFF) as u8], vec![0xFF; 15],
+                    vec![0x0D, 0x0A], vec![0x0A], vec![0x0D], vec![0x0A, 0x0D], vec![0x3A], vec![0x20],
                 ];
                 for tail in tails {
                     let mut d = vec![b0];
                     d.extend(tail);
                     f2m_case(ctx, a, t, &d, b0 % 2 == 0, "structured-tail");
                 }
+            }
+        }
+    }
+    // data that is itself the text of a frame line (of a hello, a report, a data chunk; either case; with and without
+    // CR LF; damaged): still just data
+    for (k, (ia, it, id)) in [(5u16, 2u8, vec![0xFFu8]), (3, 4, vec![0x13]), (0, 1, vec![]), (16, 0, vec![1, 2, 3]), (0xFFFF, 6, vec![0])].into_iter().enumerate() {
+        for nl in [false, true] {
+            let text = ref_encode(ia, it, &id, nl);
+            let lower: Vec<u8> = text.iter().map(|c| c.to_ascii_lowercase()).collect();
+            let mut damaged = text.clone();
+            damaged[3] ^= 1;
+            for inner in [text, lower, damaged] {
+                for t in [0u8, 1, 2, 3, 4, 0x42, 0xFF] {
+                    f2m_case(ctx, 0x0300 + k as u16, t, &inner, (k + t as usize) % 2 == 0, "frame-text-as-data");
+                }
+            }
+        }
+    }
+    // data blocks handed out by the library itself (the block of a catalogue message's frame, of a decoded frame) put into
+    // frames of every type: where a block came from makes no difference
+    for t in [0u8, 1, 2, 3, 4, 5, 6, 7, 0x42, 0xFF] {
+        for b in 0..=255u16 {
+            for a in [3u16, 0xFEDC] {
+                let line = format!("F2MP {} {} {:02X}", a, t, b);
+                ctx.case(line, true, "library-owned-block");
             }
         }
     }
